@@ -325,3 +325,75 @@ func VerifC07_DHCPTruncated() {
 }
 
 func init() { vHarness["VerifC07_DHCPTruncated"] = VerifC07_DHCPTruncated }
+
+// Circuit-ids longer than the 32-byte map key: two relayed subscribers on lines whose circuit-ids agree in the first
+// 32 bytes both hold leases; a request relayed for the first one must be answered (if the fast path answers at all)
+// with the first one's address - exactly what userspace answers.
+func VerifC03_LongCircuitIDs() {
+	s, _ := verifFastServer()
+	n := 33 + ndPick("cid-length", 4) // 33..36 bytes
+	cidA := make([]byte, n)
+	for i := range cidA {
+		cidA[i] = byte('a' + i%20)
+	}
+	cidB := append([]byte(nil), cidA...)
+	cidB[n-1] ^= 0x01 // differs only beyond the key size
+	relay := func(m *dhcpv4.DHCPv4, cid []byte) *dhcpv4.DHCPv4 {
+		m.GatewayIPAddr = net.IP{10, 9, 9, 9}
+		m.UpdateOption(dhcpv4.OptGeneric(dhcpv4.OptionRelayAgentInformation, append([]byte{1, byte(len(cid))}, cid...)))
+		return m
+	}
+	lease := func(who int, cid []byte) net.IP {
+		off, err := s.handleDiscover(relay(verifV4Plain(dhcpv4.MessageTypeDiscover, who), cid))
+		vAssume(err == nil && off != nil)
+		req := relay(verifV4Plain(dhcpv4.MessageTypeRequest, who), cid)
+		req.UpdateOption(dhcpv4.OptRequestedIPAddress(off.YourIPAddr))
+		ack, err := s.handleRequest(req)
+		vAssume(err == nil && ack != nil && ack.MessageType() == dhcpv4.MessageTypeAck)
+		vRunPending()
+		return ack.YourIPAddr
+	}
+	ipA := lease(0, cidA)
+	ipB := lease(1, cidB)
+	vAssume(!ipA.Equal(ipB))
+	mt := byte(1 + 2*ndPick("request", 2))
+	frame := verifFrame(0, mt, 0, cidA)
+	ktime := ndU64("ktime")
+	vAssume(ktime < 1<<59)
+	vBPFNow(ktime)
+	verdict := vBPFRun("dhcp_fastpath", "dhcp_fastpath_prog", "xdp", frame)
+	if verdict != xdpTx {
+		vReach("not-answered")
+		return
+	}
+	out := vBPFPacket()
+	vAssert(len(out) >= 14+28+240, "reply shorter than Ethernet/IP/UDP/BOOTP headers")
+	b := out[14+28:]
+	vAssert(bytes.Equal(b[16:20], ipA.To4()), "fast path yiaddr differs from the address userspace assigns")
+	vReach("tx")
+}
+
+func init() { vHarness["VerifC03_LongCircuitIDs"] = VerifC03_LongCircuitIDs }
+
+
+// Every layout of the first option bytes (pad bytes, client-id before the message type, ...): an untagged DHCP
+// request whose first `opts` option bytes are arbitrary, cut after each of the first 16 option bytes.
+func VerifC07_DHCPOptionLayouts() {
+	vBPFMapsMode("null")
+	full := verifFrame(0, 1, 0, nil)
+	optStart := 14 + 28 + 240
+	k := vParam("opts", 14)
+	copy(full[optStart:], ndBytes("opts", k))
+	n := optStart + ndPick("cut", 17)
+	pkt := full[:n]
+	orig := append([]byte(nil), pkt...)
+	v := vBPFRun("dhcp_fastpath", "dhcp_fastpath_prog", "xdp", pkt)
+	out := vBPFPacket()
+	vAssert(v == xdpPass || v == xdpTx || v == xdpDrop, "undefined verdict")
+	if v == xdpPass {
+		vAssert(len(out) == len(orig) && bytes.Equal(out, orig), "frame handed to userspace differs from the frame received")
+	}
+	vReach("end")
+}
+
+func init() { vHarness["VerifC07_DHCPOptionLayouts"] = VerifC07_DHCPOptionLayouts }
